@@ -21,6 +21,7 @@ fi
 [ -d /verif/demos/builder ] && cp /verif/demos/builder/*_test.go "$w/teamserver/pkg/common/builder/" 2>/dev/null || true
 [ -d /verif/demos/profile ] && cp /verif/demos/profile/*_test.go "$w/teamserver/pkg/profile/" 2>/dev/null || true
 [ -d /verif/demos/hclsyntax ] && cp /verif/demos/hclsyntax/*_test.go "$w/teamserver/pkg/profile/yaotl/hclsyntax/" 2>/dev/null || true
+[ -d /verif/demos/hclwrite ] && cp /verif/demos/hclwrite/*_test.go "$w/teamserver/pkg/profile/yaotl/hclwrite/" 2>/dev/null || true
 cd "$w/teamserver"
 export GOFLAGS=-mod=mod GOPROXY=off GOSUMDB=off GOTOOLCHAIN=local
-go test -vet=off -count=1 -run "$pat" ./pkg/agent/ ./cmd/server/ ./pkg/logr/ ./pkg/handlers/ ./pkg/service/ ./pkg/socks/ ./pkg/common/ ./pkg/common/builder/ ./pkg/profile/ ./pkg/profile/yaotl/hclsyntax/ ./pkg/db/ 2>&1 | grep -v "no test files" | tail -40
+go test -vet=off -count=1 -run "$pat" ./pkg/agent/ ./cmd/server/ ./pkg/logr/ ./pkg/handlers/ ./pkg/service/ ./pkg/socks/ ./pkg/common/ ./pkg/common/builder/ ./pkg/profile/ ./pkg/profile/yaotl/hclsyntax/ ./pkg/profile/yaotl/hclwrite/ ./pkg/db/ 2>&1 | grep -v "no test files" | tail -40
